@@ -127,8 +127,22 @@ func c09run(r *kernel.Run, strategy int, seed uint64) {
 		tag []byte
 	}
 	var out []sealed
+	groupsShared := groups
+	ownValues := r.Choose(2) == 0
+	if ownValues {
+		r.Probe("senders_hold_their_own_group_values")
+	}
 	for tk := 0; tk < ntasks; tk++ {
 		tk := tk
+		// every caller holds its own Group value (a group is opened, listed and decoded in many places of an
+		// application; nothing guarantees that two senders share one pointer)
+		groups := groups
+		if ownValues {
+			groups = make([]*protocoltypes.Group, len(groups))
+			for gi := range groups {
+				groups[gi] = proto.Clone(groupsShared[gi]).(*protocoltypes.Group)
+			}
+		}
 		s.Go(fmt.Sprintf("sender%d", tk), func() {
 			if lazy {
 				for gi, g := range groups {
